@@ -23,6 +23,12 @@
        -> X S <r> U <r> Z (x[n])*lambda     <r> = EXC | mean'[n] var'[n] bestval bestpt[n] miss
           (S: cem_step on the draws z with the table (x -> fit) as oracle; U: cem_select_update on the recorded offspring;
            Z: cem_sample of every draw; kind 0/1 = cem_noise_const a (0: a = 0), 2 = cem_noise_linear a b)
+   UW <the U line> eig[n]
+       -> UW sigma' mean'[n] C'[n*n] pc'[n] ps'[n] X (x[n])*lambda D dist
+          (cma_step: the offspring are SAMPLED by the model from the recorded draws z with the sampling matrix Q diag(sqrt(max(eig,0)))
+           and evaluated by the oracle "fitness of the nearest recorded search point"; dist = largest distance to that point)
+   SW n lambda mu cC cSigma sigma mean[n] L[n*n] (fit x[n] step[n] sigma_i)*lambda (z[n] g)*lambda
+       -> SW sigma' mean'[n] L'[n*n] X (x[n])*lambda D dist  |  SW EXC      (cmsa_step, same oracle convention)
    Cholesky factors travel as full row-major n*n matrices; the model takes the list of trailing columns
    (column j = L(j,j), L(j+1,j), .., L(n-1,j)); the driver converts in both directions (zeros above the diagonal). *)
 open C11_model
@@ -158,6 +164,54 @@ let () =
         (match chol_update fops alpha beta (cols_of_full n rows) v with
          | Some c -> Printf.printf "H %s\n" (sv (full_of_cols n c))
          | None -> print_endline "H EXC")
+      | "UW" ->
+        let n = int_of_string t.(1) and lambda = int_of_string t.(2) and mu = int_of_string t.(3) in
+        let f i = fos t.(i) in
+        let k = { k_cC = f 4; k_c1 = f 5; k_cMu = f 6; k_cSigma = f 7; k_dSigma = f 8; k_muEff = f 9 } in
+        let counter = int_of_string t.(10) and sigma = f 11 in
+        let p = ref 12 in
+        let vecn m = let v = List.init m (fun i -> f (!p + i)) in p := !p + m; v in
+        let matn m = List.init m (fun _ -> vecn m) in
+        let mean = vecn n in let c = matn n in let pc = vecn n in let ps = vecn n in let b = matn n in
+        let ws = vecn mu in
+        let off = List.init lambda (fun _ -> let fit = f !p in incr p; let x = vecn n in let z = vecn n in (fit, (x, z))) in
+        let eigv = vecn n in
+        let smat = List.map (fun row -> List.map2 (fun q l -> q *. sqrt (Float.max l 0.0)) row eigv) b in
+        let dist = ref 0.0 and xs = ref [] in
+        let oracle x =
+          xs := x :: !xs;
+          let d (_, (y, _)) = List.fold_left2 (fun m a b -> Float.max m (Float.abs (a -. b))) 0.0 x y in
+          let best = List.fold_left (fun acc o -> match acc with None -> Some o | Some o' -> if d o < d o' then Some o else acc) None off in
+          match best with Some o -> dist := Float.max !dist (d o); fst o | None -> nan in
+        let st = { s_mean = mean; s_sigma = sigma; s_C = c; s_pc = pc; s_ps = ps; s_counter = nat_of_int counter } in
+        let zs = List.map (fun (_, (_, z)) -> z) off in
+        let st' = cma_step fops oracle (fun _ -> (b, smat)) k (nat_of_int n) (nat_of_int mu) ws st zs in
+        (* the sampled points in offspring order (the oracle may be called in any order) *)
+        let sampled = List.map (fun z -> fst (snd (cma_offspring fops (fun _ -> 0.0) smat mean sigma z))) zs in
+        Printf.printf "UW %s %s %s %s %s X %s D %s\n" (pf st'.s_sigma) (sv st'.s_mean) (sv (List.concat st'.s_C)) (sv st'.s_pc) (sv st'.s_ps)
+          (String.concat " " (List.map sv sampled)) (pf !dist)
+      | "SW" ->
+        let n = int_of_string t.(1) and lambda = int_of_string t.(2) and mu = int_of_string t.(3) in
+        let f i = fos t.(i) in
+        let cC = f 4 and cSigma = f 5 and sigma = f 6 in
+        let p = ref 7 in
+        let vecn m = let v = List.init m (fun i -> f (!p + i)) in p := !p + m; v in
+        let matn m = List.init m (fun _ -> vecn m) in
+        let mean = vecn n in
+        let l = cols_of_full n (matn n) in
+        let off = List.init lambda (fun _ -> let fit = f !p in incr p; let x = vecn n in let st = vecn n in
+                                             let si = f !p in incr p; (fit, (x, (st, si)))) in
+        let draws = List.init lambda (fun _ -> let z = vecn n in let g = f !p in incr p; (z, g)) in
+        let dist = ref 0.0 in
+        let oracle x =
+          let d (_, (y, _)) = List.fold_left2 (fun m a b -> Float.max m (Float.abs (a -. b))) 0.0 x y in
+          let best = List.fold_left (fun acc o -> match acc with None -> Some o | Some o' -> if d o < d o' then Some o else acc) None off in
+          match best with Some o -> dist := Float.max !dist (d o); fst o | None -> nan in
+        let sampled = List.map (fun zg -> fst (snd (cmsa_offspring fops (fun _ -> 0.0) cSigma mean sigma l zg))) draws in
+        (match cmsa_step fops oracle cSigma cC (nat_of_int n) (nat_of_int mu) ((mean, sigma), l) draws with
+         | Some ((mean', sigma'), l') ->
+           Printf.printf "SW %s %s %s X %s D %s\n" (pf sigma') (sv mean') (sv (full_of_cols n l')) (String.concat " " (List.map sv sampled)) (pf !dist)
+         | None -> print_endline "SW EXC")
       | "NI" | "NS" ->
         let n = int_of_string t.(1) in
         let f i = fos t.(i) in
